@@ -105,6 +105,30 @@ func refCompare(cols []gen.SortCol) func(a, b gen.Keyed) int {
 				case a.Sum > b.Sum:
 					r = +1
 				}
+			case "g":
+				var av, bv *int64
+				if a.G != nil {
+					av = a.G.V
+				}
+				if b.G != nil {
+					bv = b.G.V
+				}
+				switch {
+				case av == nil && bv == nil:
+					r = 0
+				case av == nil:
+					if c.NullsFirst {
+						return -1
+					}
+					return +1
+				case bv == nil:
+					if c.NullsFirst {
+						return +1
+					}
+					return -1
+				default:
+					r = cmpOrd(*av, *bv)
+				}
 			case "k2":
 				switch {
 				case a.K2 == nil && b.K2 == nil:
